@@ -51,7 +51,8 @@ TRet == /\ Is("ret")
                     \cup (IF failedNow /\ Ev.res = "ok" THEN {V("a write failed, yet MakeRoot reports success")} ELSE {})
                     \cup (IF ~failedNow /\ Ev.res = "err" /\ ~Ev.foreign THEN {V("MakeRoot fails on a healthy store")} ELSE {})
                     \cup (IF Ev.res = "ok" /\ Ev.missing > 0
-                          THEN {V(IF Ev.foreign THEN "nodes were skipped because a cache shared with another store had seen them"
+                          THEN {V(IF Ev.foreign /\ Ev.nocache THEN "nodes were skipped because another store (same bucket, other prefix) holds them"
+                                  ELSE IF Ev.foreign THEN "nodes were skipped because a cache shared with another store had seen them"
                                   ELSE IF everFailed THEN "after a failed write a later attempt succeeded although a reachable node is not in the store"
                                   ELSE "success reported although a reachable node is not in the store")} ELSE {})
                     \cup (IF Ev.res = "ok" /\ Ev.missing = 0 /\ Ev.reload # "ok" THEN {V("the returned root does not load back to the tree's contents")} ELSE {})
